@@ -351,6 +351,48 @@ func (c *Ctx) builtinFuncs() map[string]*ssa.Function {
 	if len(out) > 0 {
 		return out
 	}
+	// a slice or array of {name, function} rows filled by the package initialiser
+	if pkg := c.pkg("builtins"); pkg != nil {
+		if ini, _ := pkg.Members["init"].(*ssa.Function); ini != nil {
+			names := map[ssa.Value]string{}
+			fns := map[ssa.Value]*ssa.Function{}
+			for _, b := range ini.Blocks {
+				for _, in := range b.Instrs {
+					st, ok := in.(*ssa.Store)
+					if !ok {
+						continue
+					}
+					fa, ok := st.Addr.(*ssa.FieldAddr)
+					if !ok {
+						continue
+					}
+					row := fa.X
+					if k, isC := constString(st.Val); isC {
+						names[row] = k
+						continue
+					}
+					for _, o := range append([]ssa.Value{st.Val}, origins(st.Val)...) {
+						switch x := o.(type) {
+						case *ssa.Function:
+							fns[row] = x
+						case *ssa.ChangeType:
+							if f2, ok := x.X.(*ssa.Function); ok {
+								fns[row] = f2
+							}
+						}
+					}
+				}
+			}
+			for row, k := range names {
+				if fn := fns[row]; fn != nil {
+					out[k] = fn
+				}
+			}
+		}
+	}
+	if len(out) > 0 {
+		return out
+	}
 	// no table: builtins.Get selects the function with comparisons of its name parameter against constants
 	get := c.fnOpt("builtins", "Get")
 	if get == nil || len(get.Params) != 1 {
